@@ -51,6 +51,10 @@ type caseIn struct {
 		Stage string `json:"stage"`
 		Hdr   bool   `json:"hdr"`
 	} `json:"pred"`
+	PredDesign struct {
+		Acc bool `json:"acc"`
+		Hdr bool `json:"hdr"`
+	} `json:"pred_design"`
 	rand bool
 	seed int64
 }
@@ -226,7 +230,8 @@ func (w *world) runCase(id string, c *caseIn, mid int) (jr jobResult) {
 		"state": c.Case.State, "srih": w.srih, "vt": w.vt, "kind": c.Case.Kind, "family": c.Case.Family, "world": w.id, "h": h,
 		"pre":   map[string]any{"blkH": int(before.blkH), "hdrs": n.ids(before, offered)},
 		"attrs": m, "decl": decl, "acc": acc, "err": errClass(oerr), "msg": msg,
-		"pred": map[string]any{"acc": c.Pred.Acc, "stage": c.Pred.Stage, "hdr": c.Pred.Hdr, "has": !c.rand && c.Dec == "ok"},
+		"pred": map[string]any{"acc": c.Pred.Acc, "stage": c.Pred.Stage, "hdr": c.Pred.Hdr, "has": !c.rand && c.Dec == "ok",
+			"alt_acc": c.PredDesign.Acc, "alt_hdr": c.PredDesign.Hdr},
 		"obs": map[string]any{"blk_plus": int(after.blkH) - int(before.blkH), "tip_is_offer": after.tip == offered,
 			"hdrs_after": n.ids(after, offered), "led_changed": ledDiff(before, after), "pool_changed": before.pool != after.pool,
 			"db_changed": dbDiff(before.db, after.db, offered), "ref_equal": refEq, "pool_size": n.pooled}}
@@ -382,7 +387,7 @@ func TestDriver(t *testing.T) {
 					for _, ev := range o.events {
 						tr.Emit(ev)
 						if ev["event"] == "offer" {
-							res.Count([]any{ev["src"], ev["via"], ev["state"], ev["srih"], ev["vt"], ev["kind"], ev["family"], ev["attrs"], ev["acc"], ev["err"], ev["obs"]})
+							res.Count([]any{w.id, ev["h"], ev["src"], ev["via"], ev["state"], ev["srih"], ev["vt"], ev["kind"], ev["family"], ev["attrs"], ev["acc"], ev["err"], ev["obs"]})
 							res.Inc("offers", 1)
 							if ev["acc"].(bool) {
 								res.Inc("offers_accepted", 1)
